@@ -29,13 +29,23 @@ structure Cfg where
   /-- proposed: an admitted run drops the cache, and the inputs it was admitted with are recorded only
   when the result of THAT run has been processed (current tree: recorded at admission) -/
   commitOnSuccess : Bool
+  /-- `_finish_run` catches `(Exception, KeyboardInterrupt)` like `_run` does (f3b0474; before: `Exception` only) -/
+  catchKbdInCallback : Bool
   deriving Repr, DecidableEq
 
-def Cfg.pinned : Cfg := { writeAfterGate := false, clearOnFail := false, guardHit := false, commitOnSuccess := false }
-/-- the tree as it is now (after fix 0699958) -/
-def Cfg.repaired : Cfg := { writeAfterGate := true, clearOnFail := true, guardHit := true, commitOnSuccess := false }
-/-- with fixes/C05-commit-cache-on-success.patch -/
-def Cfg.proposed : Cfg := { writeAfterGate := true, clearOnFail := true, guardHit := true, commitOnSuccess := true }
+def Cfg.pinned : Cfg :=
+  { writeAfterGate := false, clearOnFail := false, guardHit := false, commitOnSuccess := false, catchKbdInCallback := false }
+/-- /repo after fix 0699958 and before b54ba0f (the tree the findings KF-C05-3/4/5 were made on) -/
+def Cfg.repaired : Cfg :=
+  { writeAfterGate := true, clearOnFail := true, guardHit := true, commitOnSuccess := false, catchKbdInCallback := false }
+/-- the cache records a processed result (b54ba0f = fixes/C05-commit-cache-on-success.patch); `kbd` says whether the
+done-callback treats KeyboardInterrupt as a failure -/
+def Cfg.commit (kbd : Bool) : Cfg :=
+  { writeAfterGate := true, clearOnFail := true, guardHit := true, commitOnSuccess := true, catchKbdInCallback := kbd }
+/-- /repo after b54ba0f, before f3b0474 -/
+def Cfg.proposed : Cfg := Cfg.commit false
+/-- /repo as it is now (b54ba0f + f3b0474) -/
+def Cfg.now : Cfg := Cfg.commit true
 
 inductive Outcome
   | ok        -- returns a value
@@ -116,7 +126,9 @@ def step (cfg : Cfg) (beh : Nat → Outcome) (useCache : Bool) (n : N) : Op → 
       | .ok => (N.succeed cfg useCache n1 v, .unit)
       | .exc => (N.fail cfg n1, .unit)                           -- re-raised inside the callback, swallowed by the future
       | .procbad => (N.fail cfg n1, .unit)
-      | .kbd => ({ n1 with running := false }, .escaped)          -- `except Exception` does not see it
+      | .kbd =>                                                   -- re-raised either way: it leaves the callback
+        if cfg.catchKbdInCallback then (N.fail cfg n1, .escaped)
+        else ({ n1 with running := false }, .escaped)             -- `except Exception` does not see it
       | .fatal => ({ n1 with running := false }, .escaped)
   | .clearFailed => ({ n with failed := false }, .unit)
   | .cancel =>
